@@ -49,8 +49,10 @@ DEGREE_SETS = [[0, 2, 4, 5, 7, 9, 11], [0, 2, 3, 5, 7, 8, 10], [0, 2, 4, 7, 9],
 def scale_spec(rng, kind=None):
     """kinds: et12-explicit (scale object passed but default tuning),
     nonet12 (12 unequal semitone values), ratio12 (12 values, octave ratio != 2),
-    etn (n equal steps, octave ratio 2)."""
-    kind = kind or rng.choice(['et12-explicit', 'nonet12', 'ratio12', 'etn'])
+    etn (n equal steps, octave ratio 2), ration (n equal steps of an octave
+    ratio != 2, e.g. Bohlen-Pierce: 13 steps of 3:1)."""
+    kind = kind or rng.choice(['et12-explicit', 'nonet12', 'ratio12', 'etn',
+                               'ration'])
     if kind == 'et12-explicit':
         return {'kind': kind, 'degrees': rng.choice(DEGREE_SETS), 'tuning': None,
                 'ratio': 2.0}
@@ -69,6 +71,14 @@ def scale_spec(rng, kind=None):
     n = rng.choice([5, 7, 10, 17, 19, 22, 24, 31])
     size = rng.randint(3, min(n, 9))
     degs = sorted(rng.sample(range(1, n), size - 1))
+    ratio = 2.0
+    if kind == 'ration':
+        import math
+        n, ratio = rng.choice([(13, 3.0), (8, 1.5), (25, 5.0), (12, 2.5)])
+        size = rng.randint(3, min(n, 9))
+        degs = sorted(rng.sample(range(1, n), size - 1))
+        return {'kind': kind, 'degrees': [0] + degs, 'ratio': ratio,
+                'tuning': [i * 12.0 * math.log2(ratio) / n for i in range(n)]}
     return {'kind': kind, 'degrees': [0] + degs,
             'tuning': [i * 12.0 / n for i in range(n)], 'ratio': 2.0}
 
@@ -82,31 +92,22 @@ def _numv(rng, choices, as_float=0.5):
     return v
 
 
-def pitch_keys(rng, scale_p=0.45, bare_modifiers=True):
-    """Pitch keys inside the domain where the SuperCollider documentation and
-    the port's in-code notes agree (see model_events header).
-    bare_modifiers: allow scale/transposition/octave keys without any of the
-    source keys degree/note (only the chain monitor does that, so that one
-    mechanism is reported by one monitor)."""
+def pitch_keys(rng, scale_p=0.45):
+    """Pitch keys: every source key with every modifier of the documented
+    chain.  Kept out (the statement does not decide them, see the audit table
+    in vf/props/C14.py): harmonic != 1 together with an explicit freq."""
     ev = {}
     src = rng.choice(['none', 'degree', 'degree', 'degree', 'note', 'midinote',
                       'midinote', 'freq'])
-    if src == 'none' and not bare_modifiers:
-        if rng.random() < 0.3:
-            ev['harmonic'] = _numv(rng, [0.5, 1, 1.5, 2, 3, 4])
-        if rng.random() < 0.3:
-            ev['detune'] = _numv(rng, [-5, -0.5, 0.7, 3, 12.5])
-        return ev
     scale = None
     if src in ('degree', 'note', 'none') and rng.random() < scale_p:
         scale = scale_spec(rng)
-        if src == 'note' and scale['kind'] == 'etn':
-            scale = scale_spec(rng, 'nonet12')
-    twelve = scale is None or len(scale['tuning'] or me.ET12) == 12
     if scale is not None:
         ev['scale'] = scale
     if src == 'degree':
         ev['degree'] = _numv(rng, list(range(-14, 22)), 0.2)
+        if rng.random() < 0.12:     # accidentals: x.1 sharp, x.9 = (x+1) flat
+            ev['degree'] = ev['degree'] + rng.choice([0.1, -0.1, 0.2, -0.2])
         if rng.random() < 0.4:
             ev['mtranspose'] = _numv(rng, list(range(-7, 8)), 0.2)
     elif src == 'note':
@@ -127,14 +128,14 @@ def pitch_keys(rng, scale_p=0.45, bare_modifiers=True):
             ev['midinote'] = rng.randint(40, 80)   # explicit freq wins
         if rng.random() < 0.2:
             ev['degree'] = rng.randint(-3, 9)
-    if src in ('degree', 'note', 'none') and twelve:
+    if src in ('degree', 'note', 'none'):
         if rng.random() < 0.3:
             ev['gtranspose'] = _numv(rng, [-3, -1, 0.5, 1, 2, 7])
         if rng.random() < 0.3:
             ev['root'] = _numv(rng, [-2, 1, 2.5, 3, 5])
     if src in ('degree', 'note', 'none') and rng.random() < 0.3:
         ev['octave'] = _numv(rng, [2, 3, 4, 4.5, 5, 6, 7])
-    if src in ('midinote', 'note') and rng.random() < 0.4:
+    if src != 'freq' and rng.random() < 0.3:
         ev['ctranspose'] = _numv(rng, [-12, -1, -0.5, 0.25, 1, 7, 12])
     if src != 'freq' and rng.random() < 0.3:
         ev['harmonic'] = _numv(rng, [0.5, 1, 1.5, 2, 3, 4])
@@ -156,7 +157,8 @@ def amp_keys(rng):
     return ev
 
 
-GRID_DUR = [0.125, 0.25, 0.375, 0.5, 0.75, 1, 1, 1.5, 2, 3]
+GRID_DUR = [0.125, 0.25, 0.375, 0.5, 0.75, 1, 1, 1.5, 2, 3, 0.125, 0.25, 0.5,
+            0.75, 1, 2, 0]
 OFF_DUR = [0.1, 0.3, 1 / 3, 0.7, 1.1, 0.05, 2.2]
 STRETCH = [0.5, 1, 1.5, 2, 0.25]
 LEGATO = [0.8, 0.5, 1, 1.25, 0.25, 0.1]
@@ -209,7 +211,7 @@ def control_keys(rng, inst):
 
 def event_spec(rng, inst, tag, offgrid=False):
     ev = {'instrument': inst['name'], 'tag': tag}
-    ev.update(pitch_keys(rng, scale_p=0.08, bare_modifiers=False))
+    ev.update(pitch_keys(rng, scale_p=0.3))
     ev.update(amp_keys(rng))
     ev.update(dur_keys(rng, offgrid))
     ev.update(server_keys(rng, inst))
@@ -218,19 +220,16 @@ def event_spec(rng, inst, tag, offgrid=False):
 
 
 def _history_event(rng, inst, tag, offgrid):
-    """Event spec for objects that are played more than once.  Pitch is given
-    only by an explicit `freq` (or not at all) and without harmonic/detune: the
-    port stores the played frequency back into the event's `freq` key, the
-    SuperCollider original does not; with this restriction both give the same
-    value on every later play.  No variant (the port stores the composed name
-    back into `instrument`)."""
+    """Event spec for objects that are played more than once: any pitch keys
+    (every play must resolve them anew from what the object defines then)."""
     ev = {'instrument': inst['name'], 'tag': tag}
-    if rng.random() < 0.6:
-        ev['freq'] = _numv(rng, [55, 110.5, 220, 333.3, 440, 1234.5])
+    ev.update(pitch_keys(rng, scale_p=0.1))
     ev.update(amp_keys(rng))
     ev.update(dur_keys(rng, offgrid))
     ev.update(server_keys(rng, inst))
     ev.update(control_keys(rng, inst))
+    if rng.random() < 0.08:
+        ev['variant'] = rng.choice(['va', 'zz'])
     return ev
 
 
@@ -244,7 +243,7 @@ def _history_edit(rng, ev, insts, offgrid):
         st['instrument'] = inst['name']
     for _ in range(rng.randint(1, 4)):
         what = rng.choice(['control', 'control', 'amp', 'dur', 'freq', 'server',
-                           'delete', 'delete'])
+                           'delete', 'delete', 'pitch'])
         if what == 'control':
             st.update(control_keys(rng, inst))
         elif what == 'amp':
@@ -255,6 +254,9 @@ def _history_edit(rng, ev, insts, offgrid):
             st['freq'] = _numv(rng, [55, 110.5, 220, 333.3, 440, 1234.5])
         elif what == 'server':
             st.update(server_keys(rng, inst))
+        elif what == 'pitch':
+            for k, v in pitch_keys(rng, scale_p=0.0).items():
+                st[k] = v
         else:
             cand = [k for k in ev if k not in ('instrument', 'tag')
                     and k not in st]
@@ -319,7 +321,7 @@ def play_program(rng, insts, tags):
     for _ in range(rng.randint(1, 5)):
         inst = rng.choice(insts)
         ev = event_spec(rng, inst, next(tags), offgrid)
-        if rng.random() < 0.01:
+        if rng.random() < 0.05:
             ev['variant'] = rng.choice(['va', 'zz'])
         wait = rng.choice(OFF_DUR if offgrid else GRID_DUR + [0, 0])
         how = rng.choice(['event.play', 'play(dict)', 'play(**kw)',
@@ -394,7 +396,10 @@ def pbind_spec(rng, insts, tags, offgrid=False, rests=True, timing=True,
     if pitch:
         src = rng.choice(['degree', 'degree', 'midinote', 'freq', 'note', 'none'])
         if src == 'degree':
-            m['degree'] = _column(rng, n, list(range(-7, 15)), 0.2, rp)
+            m['degree'] = _column(rng, n, list(range(-7, 15)) + (
+                [1.1, 3.9, -2.1, 6.2] if rng.random() < 0.15 else []), 0.2, rp)
+            if rng.random() < 0.2:
+                m['ctranspose'] = _column(rng, n, [-12, 0.5, 7], 0.5)
             if rng.random() < 0.3:
                 m['mtranspose'] = _column(rng, n, [-2, -1, 1, 3], 0.5)
             if rng.random() < 0.3:
@@ -426,7 +431,7 @@ def pbind_spec(rng, insts, tags, offgrid=False, rests=True, timing=True,
 
 
 def pmono_spec(rng, insts, tags, offgrid=False):
-    pb = pbind_spec(rng, insts, tags, offgrid, rests=False, mono=True)
+    pb = pbind_spec(rng, insts, tags, offgrid, rests=True, mono=True)
     return ['pmono', rng.choice(insts)['name'], pb[1]]
 
 
